@@ -60,6 +60,12 @@ MUTANTS = [
         "reverts fix a9883a3: cached codon locations re-used for a CDS with overlapping blocks (codon spanning the overlap in genome order)",
     ),
     (
+        "c10_unique_value_or_none_memoized_again", "C10", G + "parent/parent.py",
+        "def _unique_value_or_none(values: Iterable[Optional[str]]) -> Optional[str]:\n",
+        "@lru_cache(maxsize=PARENT_CACHE_SIZE)\ndef _unique_value_or_none(values: Iterable[Optional[str]]) -> Optional[str]:\n",
+        "reverts fix 66ba6ef: result cache keyed on values that a str-Enum and its string share",
+    ),
+    (
         "c10_extract_sequence_str_again", "C10", G + "gene/cds.py",
         "            return Sequence(seq, Alphabet.NT_EXTENDED, validate_alphabet=False)\n        if self.num_blocks > 1:",
         "            return seq\n        if self.num_blocks > 1:",
